@@ -190,3 +190,37 @@ def sccs(g):
                 u = work[-1][0]
                 low[u] = min(low[u], low[v])
     return comps
+
+
+# ---------------------------------------------------------------- C19 reference intersection score
+def leaf_set(lm, v, depth):
+    """vertices reached by `depth`-step walks from v through the latter map (as a set)."""
+    level = [v]
+    for _ in range(depth):
+        level = [w for u in level for w in lm.get(u, [])]
+    return set(level)
+
+
+def intersection_scores(lm, k, has_insertion, has_deletion):
+    """the documented score of every arc, written from the description (union sizes of leaf sets of depth k-1):
+    pairs of successors (substitution), successor vs successors-of-successors (insertion), successor vs the vertex
+    itself (deletion). Independent of the library's implementation."""
+    depth = max(k - 1, 0)
+    sc = {}
+    for u, ls in lm.items():
+        branches = [leaf_set(lm, w, depth) for w in ls]
+        for i in range(len(ls)):
+            for j in range(i + 1, len(ls)):
+                s = len(branches[i] | branches[j])
+                sc[(u, ls[i] % 4)] = sc.get((u, ls[i] % 4), 0) + s
+                sc[(u, ls[j] % 4)] = sc.get((u, ls[j] % 4), 0) + s
+        if has_insertion:
+            for i, w in enumerate(ls):
+                if w in lm:
+                    for x in lm[w]:
+                        sc[(u, w % 4)] = sc.get((u, w % 4), 0) + len(branches[i] | leaf_set(lm, x, depth))
+        if has_deletion:
+            own = leaf_set(lm, u, depth)
+            for i, w in enumerate(ls):
+                sc[(u, w % 4)] = sc.get((u, w % 4), 0) + len(branches[i] | own)
+    return sc
